@@ -204,16 +204,15 @@ func (s *c07state) deliver(i int, seq map[string]string) {
 			parts = append(parts, fmt.Sprintf("id=%s error=7:E:%s", mem.ID, mem.Tag))
 		case mem.Kind == 'q':
 			parts = append(parts, fmt.Sprintf("id=%s error=-32600:R:%s", mem.ID, mem.Tag))
+		case mem.Kind == 'b':
+			// the handler's error cannot be encoded as it is (its data are not JSON);
+			// the call is answered with an internal error in its place
+			parts = append(parts, fmt.Sprintf("id=%s error=-32603:", mem.ID))
 		default:
 			parts = append(parts, fmt.Sprintf("id=%s error=-32601:", mem.ID))
 		}
 		if mem.St != 1 {
 			delete(s.Reserved, mem.ID)
-		}
-	}
-	for _, mem := range m.Members {
-		if mem.Kind == 'b' && mem.St == 3 && !mem.Pre && mem.ID != "" {
-			parts = nil // the reply cannot be encoded; nothing is sent (the ids are released all the same)
 		}
 	}
 	if len(parts) > 0 {
